@@ -166,6 +166,35 @@ def lit_payload_list(e):
     return e[0] == 'lit' and isinstance(e[1], (list, tuple))
 
 
+def closed_lit_vars(ck, scope):
+    """[(variable, record type)] of a scope whose type is a closed record made by a
+    record literal, with atom fields to read."""
+    out = []
+    for v, t in sorted(env_of(ck, scope).items()):
+        t = find(t)
+        if t.kind == 'rec' and t.closed and t.lit and t.fields and typeref.ground(t):
+            out.append((v, t))
+    return out
+
+
+def valid_access(x, t, rng, fresh):
+    f = rng.choice(sorted(t.fields, key=str))
+    ft = find(t.fields[f])
+    e = ('field', ('var', x), f)
+    if ft.kind == 'Num':
+        return ('cmp', rng.choice(['<=', '>=']), e, ('lit', rng.choice([0, 7])))
+    if ft.kind == 'Str':
+        return ('cmp', '<=', e, ('lit', 'zz'))
+    return ('cmp', '==', ('var', fresh), e)
+
+
+def missing_access(x, rng, fresh):
+    e = ('field', ('var', x), rng.choice(['zq', 'nofield']))
+    if rng.random() < 0.5:
+        return ('cmp', '==', ('var', fresh), e)
+    return ('cmp', '<=', ('bin', '+', e, ('lit', 1)), ('lit', 3))
+
+
 def candidates(prog, ck, include_neq=False):
     """All proposals as (kind, thunk(rng) -> program).  ck: strict reference check of
     `prog` (types of its expressions and scopes)."""
@@ -300,6 +329,14 @@ def candidates(prog, ck, include_neq=False):
                                       ('cmp', '==', ('lit', 1), ('lit', 1)))), rng)
                     if form == 'neq':
                         return add_literal(prog, idx, bpath, ('cmp', '!=', x, lit), rng)
+                    if form == 'inx':
+                        # `in` as an EXPRESSION (operand of || / value compared with a
+                        # Bool), not the proposition `x in l`
+                        e = ('inx', x, ('list', (lit,)))
+                        return add_literal(prog, idx, bpath, rng.choice([
+                            ('prop', ('bin', '||', e, ('cmp', '==', ('lit', 1), ('lit', 1)))),
+                            ('prop', ('not', e)),
+                            ('cmp', '==', e, ('cmp', '==', ('lit', 1), ('lit', 1)))]), rng)
                     return add_literal(prog, idx, bpath,
                                        ('cmp', rng.choice(['==', '<', '>=']), x, lit), rng)
                 out.append(('cmp_with_lit', addlit))
@@ -307,6 +344,26 @@ def candidates(prog, ck, include_neq=False):
                 out.append(('prop_across', lambda rng, f=addlit: f(rng, form='prop')))
                 if include_neq:
                     out.append(('neq_across', lambda rng, f=addlit: f(rng, form='neq')))
+                    out.append(('in_expression_other_list',
+                                lambda rng, f=addlit: f(rng, form='inx')))
+            closed = closed_lit_vars(ck, body)
+            if closed:
+                def missing(rng, idx=idx, bpath=bpath, closed=closed):
+                    # 1-2 valid accesses and one access to a field the closed record
+                    # does not have, each at a drawn position of the same scope
+                    x, t = rng.choice(closed)
+                    used = model_vars(prog['rules'][idx])
+                    fresh = [v for v in ('mq1', 'mq2', 'mq3') if v not in used]
+                    if len(fresh) < 3:
+                        return None
+                    lits = [valid_access(x, t, rng, fresh[k])
+                            for k in range(rng.randint(1, 2))]
+                    lits.append(missing_access(x, rng, fresh[2]))
+                    p = prog
+                    for l in lits:
+                        p = add_literal(p, idx, bpath, l, rng)
+                    return p
+                out.append(('missing_field', missing))
             recs = [t for t in tys if t.startswith('{')]
             if recs:
                 def badfield(rng, idx=idx, bpath=bpath, by=by, recs=recs):
@@ -425,6 +482,17 @@ def candidates(prog, ck, include_neq=False):
                             return replace_site(prog, j, (2, 0, 2, k),
                                                 (rng.choice(named), h2))
                         out.append(('relay_clash', recol))
+    # the consumer of a record handed on by a predicate that reads one of its fields
+    # addresses a field the (closed) record does not have
+    for idx, r in enumerate(prog['rules']):
+        if r['pred'] == CONSUMER and r['body']:
+            sites, _ = rule_sites(r)
+            for path, e, scope, ctx in sites:
+                if e[0] == 'field' and e[1][0] == 'var':
+                    def badcons(rng, idx=idx, path=path, e=e):
+                        return replace_site(prog, idx, path,
+                                            ('field', e[1], rng.choice(['zq', 'nofield'])))
+                    out.append(('missing_field_consumer', badcons))
     return out
 
 
@@ -471,7 +539,7 @@ def retype_lit(h, mode):
 # ----------------------------------------------------------------- augmentations
 
 def augment(prog, ck, rng, p_bool=0.5, p_open=0.4, p_nested=0.35, allow_inx=False,
-            p_relay=0.5):
+            p_relay=0.5, p_recpass=0.5):
     """Type-preserving extensions of a generated program: a Bool column, an injectible
     function over an open record, nested composite columns, a relay predicate (relay_rules).
     Returns (program, labels).
@@ -586,6 +654,12 @@ def augment(prog, ck, rng, p_bool=0.5, p_open=0.4, p_nested=0.35, allow_inx=Fals
             labels.append('aug:open_record_fun')
             if arg[0] == 'rec':
                 labels.append('aug:open_record_wider_literal')
+    if rng.random() < p_recpass:
+        new_rules = recpass_rules(prog, ck, rng)
+        if new_rules:
+            for r in new_rules:
+                rules.insert(rng.randint(0, len(rules)), r)
+            labels.append('aug:record_passed_on')
     if rng.random() < p_relay:
         made = relay_rules(prog, ck, rng, idb)
         if made:
@@ -600,6 +674,41 @@ def augment(prog, ck, rng, p_bool=0.5, p_open=0.4, p_nested=0.35, allow_inx=Fals
 
 
 RELAY = 'Tq'
+PASSER, CONSUMER = 'Mq', 'Cq'
+
+
+def recpass_rules(prog, ck, rng):
+    """A closed record handed on by a predicate that reads one of its fields, and a
+    consumer that reads a field of what it is handed:
+         Mq(r: x) :- D(f: x), x.a <= 7;
+         Cq(y: w) :- Mq(r: x), w == x.b;"""
+    from lv.model import mk_rule
+    if any(r['pred'] in (PASSER, CONSUMER) for r in prog['rules']):
+        return None
+    cols = []
+    seen = []
+    for r in prog['rules']:
+        if r['pred'] not in seen:
+            seen.append(r['pred'])
+    for pred in seen:
+        if pred in prog.get('inj', {}) or pred == RELAY:
+            continue
+        for f, t in sorted((ck.sig.get(pred) or {}).items(), key=lambda kv: str(kv[0])):
+            t = find(t)
+            if f != 'logica_value' and t.kind == 'rec' and t.closed and t.lit and \
+                    t.fields and typeref.ground(t):
+                cols.append((pred, f, t))
+    if not cols:
+        return None
+    pred, f, t = rng.choice(cols)
+    body = [relay_call(pred, ck.sig[pred], f, 'x'), valid_access('x', t, rng, 'mq1')]
+    rng.shuffle(body)
+    passer = mk_rule(PASSER, (('r', ('var', 'x')),), tuple(body))
+    g = rng.choice(sorted(t.fields, key=str))
+    cbody = [('call', PASSER, (('r', ('var', 'x')),), ()),
+             ('cmp', '==', ('var', 'w'), ('field', ('var', 'x'), g))]
+    rng.shuffle(cbody)
+    return [passer, mk_rule(CONSUMER, (('y', ('var', 'w')),), tuple(cbody))]
 
 
 def lit_for_type(t, rng, k=0):
